@@ -86,3 +86,9 @@ ASSUMPTIONS = [
     'R8: `self.contexts.borrow_mut()` -> `self.contexts`, field type RefCell<Vec<FeelContext>> -> Vec<FeelContext>, `&self` -> `&mut self` on mutators: drops run-time borrow checking',
     'A-std: vstd specs of Vec push/pop/last_mut, slice iter().rev(), BTreeMap get/insert, slicing; A-name; A-derive (Clone returns an equal value)',
 ]
+
+# Fallback for lookups (also decides them when a rewritten body - e.g. an iterator chain - leaves the extractor's reach)
+BOUNDED = {p: [{'name': 'innermost-binding-wins', 'driver': 'scopes', 'args': ['4'],
+                'functions': ['Scope::get_entry', 'Scope::search_deep', 'Scope::push', 'FeelContext::set_entry'],
+                'bound': 'every stack of up to 4 contexts, each binding or not binding a one-word and a two-word name: get_entry and search_deep return the innermost binding and leave the scope unchanged '
+                         '(bounded duplicate of the Verus contracts on the same functions)'}] for p in ('C10', 'C01', 'C13')}
